@@ -31,31 +31,39 @@ Definition sg_after_hdr (n : nat) (t0 : tx) : tx :=
 Lemma sg_mask_after_hdr n t0 : sg_mask (sg_after_hdr n t0) = sg_after_hdr n (sg_mask t0).
 Proof. destruct n; reflexivity. Qed.
 
+Section BodyW.
+Context {w : sg_world}.
+Notation sg_cin := (sg_cinw w).
+Notation sg_mid := (sg_midw w).
 Lemma sg_cin_nil c d rd hdr st prev rh t : sg_cin c d rd [] hdr st prev rh t -> k_consume (c_in c) = rd /\ sg_olist (k_buf (c_in c)) = [].
 Proof.
-  intros [A1 A2 A3 A4 A5 A6 A7 A8 A9 A10 A11 A12 A13 A14 A15]. apply app_eq_nil in A9. destruct A9 as [B1 B2]. split; [|exact B1].
+  intros [A1 A2 A3 A4 A5 A6 A7 A8 A9 A10 A11 A12 A13 A14 A15 A16 A17]. apply app_eq_nil in A9. destruct A9 as [B1 B2]. split; [|exact B1].
   assert (L : length (firstn (rd - k_consume (c_in c)) (skipn (k_consume (c_in c)) d)) = 0%nat) by (rewrite B2; reflexivity).
   rewrite (sg_slice_length d _ rd A8 A7) in L. lia.
 Qed.
 Lemma sg_mid_of_cin c d rd hdr st rh t : sg_cin c d rd [] hdr st (Some st) rh t -> sg_mid (c <| c_in_status := c_HTP_STREAM_DATA |>) [] hdr st rh t.
 Proof.
-  intros H. destruct (sg_cin_nil _ _ _ _ _ _ _ _ H) as [_ B]. destruct H as [A1 A2 A3 A4 A5 A6 A7 A8 A9 A10 A11 A12 A13 A14 A15].
+  intros H. destruct (sg_cin_nil _ _ _ _ _ _ _ _ H) as [_ B]. destruct H as [A1 A2 A3 A4 A5 A6 A7 A8 A9 A10 A11 A12 A13 A14 A15 A16 A17].
   constructor; try assumption. right. reflexivity.
 Qed.
 
 Lemma sg_cin_left c d rd p hdr st prev rh t f : sg_cin c d rd p hdr st prev rh t -> sg_cin (c <| c_in_body_data_left ::= f |>) d rd p hdr st prev rh t.
 Proof. intros H. apply (sg_cin_ext c); try reflexivity. exact H. Qed.
+End BodyW.
 
 Section Body.
 Variable cb : cb_oracle.
 Variable g : cfg.
 Hypothesis Hcb : wr_all_ok cb.
+Context {w : sg_world}.
+Notation sg_cin := (sg_cinw w).
+Notation sg_mid := (sg_midw w).
 
 Lemma sg_cb_body_ok : forall n, cb H_REQUEST_BODY_DATA n = CB_OK. Proof. intros n. apply Hcb. Qed.
 
-Lemma sg_bd_inv c d rd p st prev t : sg_cin c d rd p None st prev None t -> t_hook_request_body t = 0%nat -> bd_rq_inv 0 c.
+Lemma sg_bd_inv c d rd p st prev t : sg_cin c d rd p None st prev None t -> t_hook_request_body t = 0%nat -> bd_rq_inv (length (w_done w)) c.
 Proof.
-  intros H Hh. pose proof (sg_cin_slot _ _ _ _ _ _ _ _ _ H) as Hsl. destruct H as [A1 A2 A3 A4 A5 A6 A7 A8 A9 A10 A11 A12 A13 A14 A15].
+  intros H Hh. pose proof (sg_cin_slot _ _ _ _ _ _ _ _ _ H) as Hsl. destruct H as [A1 A2 A3 A4 A5 A6 A7 A8 A9 A10 A11 A12 A13 A14 A15 A16 A17].
   constructor; try assumption.
   - exists t. split; assumption.
   - apply sg_live_tunnel. exact A1.
@@ -78,7 +86,7 @@ Lemma sg_enter_left c p hdr st rh t (x : bytes) : sg_mid c p hdr st rh t -> x <>
   exists c1, connp_req_data cb g (Some x) (length x) c = rq_loop cb g (rq_fuel (length x)) false c1 /\
              sg_cin c1 x 0 p hdr st (Some st) rh t /\ c_in_body_data_left c1 = c_in_body_data_left c.
 Proof.
-  intros [A1 A2 A3 A4 A5 A6 A7 A8 A9] Hne. unfold connp_req_data.
+  intros [A1 A2 A3 A4 A5 A6 A7 A8 A9 A10 A11] Hne. unfold connp_req_data.
   rewrite (sg_live_stop _ A1), (sg_live_error _ A1), A7.
   assert (L0 : (length x =? 0)%nat = false) by (destruct x; [contradiction|reflexivity]). rewrite L0. cbn [andb].
   match goal with |- context [(c_in_status ?y =? c_HTP_STREAM_TUNNEL)%Z] => change (c_in_status y) with (c_in_status c) end.
@@ -110,7 +118,7 @@ Proof.
   change (c_in_content_length c0) with (Z.of_nat n) in Ef.
   destruct n as [|n'].
   - change ((Z.of_nat 0 =? 0)%Z) with true in Ef. cbn [negb] in Ef.
-    destruct (sg_iter_ok cb g c (c0 <| c_in_state := REQ_FINALIZE |>) d rd [] None REQ_FINALIZE (Some REQ_BODY_DETERMINE) None t Ef) as (c' & E & H'); [eapply sg_cin_state; exact H0|discriminate|].
+    destruct (sg_iter_ok (w:=w) cb g c (c0 <| c_in_state := REQ_FINALIZE |>) d rd [] None REQ_FINALIZE (Some REQ_BODY_DETERMINE) None t Ef) as (c' & E & H'); [eapply sg_cin_state; exact H0|discriminate|].
     exists c'. split; [exact E|exact H'].
   - assert (Nz : (Z.of_nat (S n') =? 0)%Z = false) by (apply Z.eqb_neq; lia). rewrite Nz in Ef. cbn [negb] in Ef.
     assert (H1 : sg_cin (c0 <| c_in_state := REQ_BODY_IDENTITY |>) d rd [] None REQ_BODY_IDENTITY (Some REQ_BODY_DETERMINE) None t) by (eapply sg_cin_state; exact H0).
@@ -121,9 +129,9 @@ Qed.
 
 (* ---- one pass of REQ_BODY_IDENTITY over what the chunk still has (all of it belongs to the body) ---- *)
 Lemma sg_cin_deliver c d rd st prev t dd rest : sg_cin c d rd [] None st prev None t -> skipn rd d = dd ++ rest ->
-  sg_cin (bd_rq_deliver 0 t dd c) d (rd + length dd) [] None st prev None (sg_body_add (Z.of_nat (length dd)) t).
+  sg_cin (bd_rq_deliver (length (w_done w)) t dd c) d (rd + length dd) [] None st prev None (sg_body_add (Z.of_nat (length dd)) t).
 Proof.
-  intros H Hs. destruct (sg_cin_nil _ _ _ _ _ _ _ _ H) as [Ecs Ebuf]. destruct H as [A1 A2 A3 A4 A5 A6 A7 A8 A9 A10 A11 A12 A13 A14 A15].
+  intros H Hs. destruct (sg_cin_nil _ _ _ _ _ _ _ _ H) as [Ecs Ebuf]. destruct H as [A1 A2 A3 A4 A5 A6 A7 A8 A9 A10 A11 A12 A13 A14 A15 A16 A17].
   assert (Ll : (rd + length dd <= length d)%nat).
   { assert (L : length (skipn rd d) = length (dd ++ rest)) by (rewrite Hs; reflexivity). rewrite skipn_length, app_length in L. lia. }
   constructor; try assumption; try reflexivity.
@@ -132,7 +140,7 @@ Proof.
   - rewrite bd_rq_deliver_in. cbn [k_buf k_consume set]. cbn. rewrite Ecs, Ebuf.
     replace (rd + length dd - (length dd + rd))%nat with 0%nat by lia. reflexivity.
   - rewrite bd_rq_deliver_in. cbn. lia.
-  - unfold bd_rq_deliver, bd_set_tx. cbn. rewrite A14. reflexivity.
+  - unfold bd_rq_deliver, bd_set_tx. cbn [c_txs c_txs_shifted set rq_set_in emit bump_hook]. cbn. rewrite A15, Nat.sub_0_r, A14, !wr_upd_app_exact. reflexivity.
 Qed.
 
 Lemma sg_body_pass c d rd t (left : nat) : sg_cin c d rd [] None REQ_BODY_IDENTITY (Some REQ_BODY_IDENTITY) None t ->
@@ -153,7 +161,7 @@ Proof.
   intros H Hh Hl Hpos Hle k. pose proof (sg_cin_slot _ _ _ _ _ _ _ _ _ H) as Hsl.
   pose proof (sg_bd_inv c d rd [] _ _ t H Hh) as Inv.
   assert (Lp : (0 < c_in_body_data_left c)%Z) by (rewrite Hl; lia).
-  pose proof (bd_rq_identity_step cb sg_cb_body_ok 0 t c Inv Hsl Lp) as Est. cbv zeta in Est.
+  pose proof (bd_rq_identity_step cb sg_cb_body_ok _ t c Inv Hsl Lp) as Est. cbv zeta in Est.
   assert (Erest : bd_rq_rest c = skipn rd d) by (unfold bd_rq_rest; rewrite (ci_data _ _ _ _ _ _ _ _ _ H), (ci_read _ _ _ _ _ _ _ _ _ H); reflexivity).
   assert (Edd : firstn (Z.to_nat (c_in_body_data_left c)) (bd_rq_rest c) = skipn rd d).
   { rewrite Erest, Hl, Nat2Z.id. apply firstn_all2. rewrite skipn_length. exact Hle. }
@@ -164,65 +172,70 @@ Proof.
   destruct k as [|k'] eqn:Ek.
   - cbn [Nat.eqb] in Est. unfold rq_iter. rewrite Ef, Est. unfold rq_exit, req_receiver_send_data. rewrite (ci_rh _ _ _ _ _ _ _ _ _ H). reflexivity.
   - cbn [Nat.eqb] in Est. rewrite <- Ek in *.
-    assert (Hd : sg_cin (bd_rq_deliver 0 t (skipn rd d) c) d (length d) [] None REQ_BODY_IDENTITY (Some REQ_BODY_IDENTITY) None (sg_body_add (Z.of_nat k) t)).
+    assert (Hd : sg_cin (bd_rq_deliver (length (w_done w)) t (skipn rd d) c) d (length d) [] None REQ_BODY_IDENTITY (Some REQ_BODY_IDENTITY) None (sg_body_add (Z.of_nat k) t)).
     { pose proof (sg_cin_deliver c d rd _ _ t (skipn rd d) [] H (eq_sym (app_nil_r _))) as Hx. rewrite skipn_length in Hx.
       replace (rd + (length d - rd))%nat with (length d) in Hx by lia. exact Hx. }
-    set (c1 := bd_rq_deliver 0 t (skipn rd d) c <| c_in_body_data_left ::= (fun l => (l - Z.of_nat k)%Z) |>) in *.
+    set (c1 := bd_rq_deliver (length (w_done w)) t (skipn rd d) c <| c_in_body_data_left ::= (fun l => (l - Z.of_nat k)%Z) |>) in *.
     assert (H1 : sg_cin c1 d (length d) [] None REQ_BODY_IDENTITY (Some REQ_BODY_IDENTITY) None (sg_body_add (Z.of_nat k) t)).
     { unfold c1. apply sg_cin_left. exact Hd. }
     destruct (k <? left)%nat eqn:Elt.
     + apply Nat.ltb_lt in Elt. assert (Nz : (c_in_body_data_left c - Z.of_nat k =? 0)%Z = false) by (apply Z.eqb_neq; rewrite Hl; lia). rewrite Nz in Est.
       exists c1. split; [|split; [exact H1|]].
       * unfold rq_iter. rewrite Ef, Est. unfold rq_exit, req_receiver_send_data. rewrite (ci_rh _ _ _ _ _ _ _ _ _ H1). reflexivity.
-      * unfold c1. cbn [c_in_body_data_left set]. change (c_in_body_data_left (bd_rq_deliver 0 t (skipn rd d) c)) with (c_in_body_data_left c). rewrite Hl. lia.
+      * unfold c1. cbn [c_in_body_data_left set]. change (c_in_body_data_left (bd_rq_deliver (length (w_done w)) t (skipn rd d) c)) with (c_in_body_data_left c). rewrite Hl. lia.
     + apply Nat.ltb_ge in Elt. assert (Ez : (c_in_body_data_left c - Z.of_nat k =? 0)%Z = true) by (apply Z.eqb_eq; rewrite Hl; lia). rewrite Ez in Est.
       rewrite <- Ef in Est.
-      apply (sg_iter_ok cb g c (c1 <| c_in_state := REQ_FINALIZE |>) d (length d) [] None REQ_FINALIZE (Some REQ_BODY_IDENTITY) None _ Est); [eapply sg_cin_state; exact H1|discriminate].
+      apply (sg_iter_ok (w:=w) cb g c (c1 <| c_in_state := REQ_FINALIZE |>) d (length d) [] None REQ_FINALIZE (Some REQ_BODY_IDENTITY) None _ Est); [eapply sg_cin_state; exact H1|discriminate].
 Qed.
 
 (* ---- REQ_FINALIZE at the end of the chunk, for a request with an identity body ---- *)
-Lemma sg_pass_finalize_body c d p hdr t : sg_cin c d (length d) p hdr REQ_FINALIZE (Some REQ_FINALIZE) None t ->
+Lemma sg_request_complete_body c d rd p prev t : sg_cin c d rd p None REQ_FINALIZE prev None t ->
   t_request_transfer_coding t = c_HTP_CODING_IDENTITY -> (t_request_progress t =? c_HTP_REQUEST_COMPLETE)%Z = false ->
   (t_response_progress t =? c_HTP_RESPONSE_COMPLETE)%Z = false -> t_is_protocol_0_9 t = false -> t_hook_request_body t = 0%nat ->
-  exists c', rq_iter cb g false c = inr c' /\ wr_done c' (sg_tcomplete t) /\
-    sg_live (c_in_status c') /\ k_len (c_in c') = length d /\ k_read (c_in c') = length d /\ k_receiver_hook (c_in c') = None.
+  exists c', rq_request_complete cb g c = (ST_OK, c') /\ sg_idl c' d rd p (w_done w ++ [Some (sg_tcomplete t)]) (w_flags w) prev.
 Proof.
-  intros H Htc Hprog Hresp H09 Hh. pose proof (sg_cin_slot _ _ _ _ _ _ _ _ _ H) as Hsl. pose proof H as [A1 A2 A3 A4 A5 A6 A7 A8 A9 A10 A11 A12 A13 A14 A15].
-  unfold rq_iter. rewrite A2. cbn [rq_state_fn]. unfold REQ_FINALIZE_fn, rq_finalize_scan. rewrite (sg_live_closed _ A1).
-  unfold rq_peek_next, rq_at_end. rewrite A5, A6, Nat.leb_refl.
-  set (c1 := rq_set_in (fun k => k <| k_next_byte := None |>) c).
-  change (k_next_byte (c_in c1)) with (@None N). cbv iota.
-  unfold rq_request_complete, rq_with_tx. change (c_in_tx c1) with (c_in_tx c). rewrite A13.
-  unfold tx_state_request_complete. change (tx_slot c1 0) with (tx_slot c 0). rewrite Hsl, Hprog. cbn [negb].
-  unfold tx_state_request_complete_partial, tx_get. change (tx_slot c1 0) with (tx_slot c 0). rewrite Hsl.
+  intros H Htc Hprog Hresp H09 Hh. pose proof (sg_cin_slot _ _ _ _ _ _ _ _ _ H) as Hsl. pose proof H as [A1 A2 A3 A4 A5 A6 A7 A8 A9 A10 A11 A12 A13 A14 A15 A16 A17].
+  unfold rq_request_complete, rq_with_tx. rewrite A13.
+  unfold tx_state_request_complete. rewrite Hsl, Hprog. cbn [negb].
+  unfold tx_state_request_complete_partial, tx_get. rewrite Hsl.
   unfold tx_req_has_body. rewrite Htc. change ((c_HTP_CODING_IDENTITY =? c_HTP_CODING_IDENTITY)%Z) with true. cbn [orb].
   unfold tx_req_process_body_data_ex.
-  rewrite (wr_tx_upd_ok c1 0 t _ Hsl). rewrite (wr_tx_put0 c1 t _ A14 A15).
+  rewrite (sg_tx_upd_at c d rd _ _ _ _ _ t _ H).
   set (t1 := t <| t_request_entity_len ::= Z.add (Z.of_nat 0) |>).
-  set (c2 := c1 <| c_txs := [Some t1] |>).
-  unfold req_run_hook_body_data. change (c_in_tx c2) with (c_in_tx c). rewrite A13.
-  assert (S2 : tx_slot c2 0 = Some t1) by (unfold tx_slot; change (c_txs_shifted c2) with (c_txs_shifted c); rewrite A15; reflexivity).
-  unfold tx_get. rewrite S2. change (t_hook_request_body t1) with (t_hook_request_body t). rewrite Hh. cbn [run_tx_hooks].
+  set (c2 := sg_settx w t1 c).
+  assert (H2 : sg_cin c2 d rd p None REQ_FINALIZE prev None t1) by (eapply sg_cin_txs; exact H).
+  unfold req_run_hook_body_data. rewrite (ci_tx _ _ _ _ _ _ _ _ _ H2).
+  unfold tx_get. rewrite (sg_cin_slot _ _ _ _ _ _ _ _ _ H2). change (t_hook_request_body t1) with (t_hook_request_body t). rewrite Hh. cbn [run_tx_hooks].
   unfold run_data_hook. rewrite (wr_run_hook_ex cb Hcb).
-  match goal with |- context [tx_upd ?x 0%nat ?f] => set (c3 := x) end.
-  assert (S3 : tx_slot c3 0 = Some t1) by (unfold tx_slot; change (c_txs_shifted c3) with (c_txs_shifted c); rewrite A15; reflexivity).
-  rewrite (wr_tx_upd_ok c3 0 t1 _ S3).
-  assert (X3 : c_txs c3 = [Some t1]) by reflexivity. assert (Y3 : c_txs_shifted c3 = 0%nat) by exact A15.
-  rewrite (wr_tx_put0 c3 t1 _ X3 Y3).
+  match goal with |- context [tx_upd ?x _ ?f] => set (c3 := x) end.
+  assert (H3 : sg_cin c3 d rd p None REQ_FINALIZE prev None t1) by (unfold c3; apply sg_cin_hook; exact H2).
+  rewrite (sg_tx_upd_at c3 d rd _ _ _ _ _ t1 _ H3).
   rewrite (wr_run_hook cb Hcb). unfold req_receiver_finalize_clear.
   set (t' := t1 <| t_request_progress := c_HTP_REQUEST_COMPLETE |>).
-  match goal with |- context [wr_hook_ev H_REQUEST_COMPLETE 0 None false ?x] => set (c4 := wr_hook_ev H_REQUEST_COMPLETE 0 None false x) end.
-  change (k_receiver_hook (c_in c4)) with (k_receiver_hook (c_in c)). rewrite A11.
-  assert (S4 : tx_slot c4 0 = Some t') by (unfold tx_slot; change (c_txs_shifted c4) with (c_txs_shifted c); rewrite A15; reflexivity).
-  rewrite S4. change (t_is_protocol_0_9 t') with (t_is_protocol_0_9 t). rewrite H09.
-  unfold tx_finalize. change (tx_slot (c4 <| c_in_state := REQ_IDLE |>) 0) with (tx_slot c4 0). rewrite S4.
+  match goal with |- context [wr_hook_ev H_REQUEST_COMPLETE ?i None false ?x] => set (c4 := wr_hook_ev H_REQUEST_COMPLETE i None false x) end.
+  assert (H4 : sg_cin c4 d rd p None REQ_FINALIZE prev None t') by (unfold c4; apply sg_cin_hook; eapply sg_cin_txs; exact H3).
+  rewrite (ci_rh _ _ _ _ _ _ _ _ _ H4).
+  rewrite (sg_cin_slot _ _ _ _ _ _ _ _ _ H4). change (t_is_protocol_0_9 t') with (t_is_protocol_0_9 t). rewrite H09.
+  unfold tx_finalize.
+  assert (H5 : sg_cin (c4 <| c_in_state := REQ_IDLE |>) d rd p None REQ_IDLE prev None t') by (eapply sg_cin_state; exact H4).
+  rewrite (sg_cin_slot _ _ _ _ _ _ _ _ _ H5).
   unfold tx_is_complete. change (t_response_progress t') with (t_response_progress t). rewrite Hresp, andb_false_r. cbn [negb].
-  set (c5 := c4 <| c_in_state := REQ_IDLE |> <| c_in_tx := None |>).
-  change (c_in_status c5) with (c_in_status c). rewrite (sg_live_tunnel _ A1).
-  unfold req_handle_state_change. change (c_in_state_previous c5) with (c_in_state_previous c). rewrite A3.
-  change (c_in_state c5) with REQ_IDLE. cbn [req_state_eqb].
-  eexists. split; [reflexivity|]. split; [constructor; reflexivity|].
-  split; [exact A1|]. split; [exact A5|]. split; [exact A6|exact A11].
+  eexists. split; [reflexivity|].
+  destruct H5 as [B1 B2 B3 B4 B5 B6 B7 B8 B9 B10 B11 B12 B13 B14 B15 B16 B17].
+  constructor; try assumption; try reflexivity.
+Qed.
+
+Lemma sg_pass_finalize_body c d p t : sg_cin c d (length d) p None REQ_FINALIZE (Some REQ_FINALIZE) None t ->
+  t_request_transfer_coding t = c_HTP_CODING_IDENTITY -> (t_request_progress t =? c_HTP_REQUEST_COMPLETE)%Z = false ->
+  (t_response_progress t =? c_HTP_RESPONSE_COMPLETE)%Z = false -> t_is_protocol_0_9 t = false -> t_hook_request_body t = 0%nat ->
+  exists c', rq_iter cb g false c = inr c' /\ sg_idl c' d (length d) p (w_done w ++ [Some (sg_tcomplete t)]) (w_flags w) (Some REQ_IDLE).
+Proof.
+  intros H Htc Hprog Hresp H09 Hh. pose proof H as [A1 A2 A3 A4 A5 A6 A7 A8 A9 A10 A11 A12 A13 A14 A15 A16 A17].
+  assert (Ef : rq_state_fn cb g (c_in_state c) c = rq_request_complete cb g (rq_set_in (fun k => k <| k_next_byte := None |>) c)).
+  { rewrite A2. cbn [rq_state_fn]. unfold REQ_FINALIZE_fn, rq_finalize_scan. rewrite (sg_live_closed _ A1).
+    unfold rq_peek_next, rq_at_end. rewrite A5, A6, Nat.leb_refl. reflexivity. }
+  destruct (sg_request_complete_body _ d _ p _ t (sg_cin_next _ _ _ _ _ _ _ _ _ None H) Htc Hprog Hresp H09 Hh) as (c1 & E1 & H1).
+  eapply (sg_iter_idle cb g c c1 d _ p); [rewrite Ef; exact E1|exact H1].
 Qed.
 End Body.
 
@@ -257,13 +270,15 @@ Variable body : bytes.
 Hypothesis Wl : wr_wf_request_line m u pr = true.
 Hypothesis Wb : wr_block_ok fs = true.
 Hypothesis Wc : wr_eqb m wr_str_connect = false.
-Let tb := wr_block_tx fs (sg_th0 g m u pr).
+Let tb := wr_block_tx fs (sg_th0 g 0 m u pr).
 Let n := length body.
 (* the header block announces an identity body of n bytes (the decision of htp_tx_process_request_headers, C11) *)
 Hypothesis Hcod : t_request_transfer_coding (sg_hdr_end tb) = c_HTP_CODING_IDENTITY.
 Hypothesis Hclen : t_request_content_length (sg_hdr_end tb) = Z.of_nat n.
 Variable bwt : bytes.
 Variable hlog : option bytes -> tx -> bytes -> bytes -> Prop.
+Notation sg_cin := (sg_cinw sg_w0).
+Notation sg_mid := (sg_midw sg_w0).
 
 Definition sg_t0 (fl : bool) : tx := sg_hdr_end (if fl then tx_set_flag c_HTP_MULTI_PACKET_HEAD tb else tb).
 Definition sg_tb1 (fl : bool) : tx := sg_t0 fl <| t_request_progress := c_HTP_REQUEST_BODY |>.
@@ -278,12 +293,12 @@ Lemma sg_t0_facts fl :
   (t_request_method_number (sg_t0 fl) =? c_HTP_M_CONNECT)%Z = false /\ t_request_progress (sg_t0 fl) = c_HTP_REQUEST_HEADERS /\
   t_response_progress (sg_t0 fl) = c_HTP_RESPONSE_NOT_STARTED /\ t_is_protocol_0_9 (sg_t0 fl) = false /\ t_hook_request_body (sg_t0 fl) = 0%nat.
 Proof.
-  destruct (sg_th0_facts g Hspace m u pr Wl) as (F & H1 & H2 & H3 & H4 & H5).
-  pose proof (wr_keep_h_block fs (sg_th0 g m u pr)) as K. fold tb in K. unfold wr_keep_h in K. destruct K as (K1 & K2 & K3 & K4 & K5 & K6 & K7 & K8 & K9 & K10).
+  destruct (sg_th0_facts g Hspace 0 m u pr Wl) as (F & H1 & H2 & H3 & H4 & H5).
+  pose proof (wr_keep_h_block fs (sg_th0 g 0 m u pr)) as K. fold tb in K. unfold wr_keep_h in K. destruct K as (K1 & K2 & K3 & K4 & K5 & K6 & K7 & K8 & K9 & K10).
   unfold wr_line_fields in F. destruct F as (F1 & F2 & F3 & F4 & F5 & F6).
-  assert (Hk0 : t_hook_request_body (sg_th0 g m u pr) = 0%nat).
-  { pose proof (sg_tx_line_hook g wr_t1 m u pr Hspace Wl) as Hx. unfold sg_th0. revert Hx.
-    generalize (sg_tx_line g wr_t1 (wr_ser_request_line m u pr)). intros X Hx. exact Hx. }
+  assert (Hk0 : t_hook_request_body (sg_th0 g 0 m u pr) = 0%nat).
+  { pose proof (sg_tx_line_hook g (sg_t1 0) m u pr Hspace Wl) as Hx. unfold sg_th0. revert Hx.
+    generalize (sg_tx_line g (sg_t1 0) (wr_ser_request_line m u pr)). intros X Hx. exact Hx. }
   assert (Base : t_request_transfer_coding (sg_hdr_end tb) = c_HTP_CODING_IDENTITY /\ t_request_content_length (sg_hdr_end tb) = Z.of_nat n /\
                  (t_request_method_number (sg_hdr_end tb) =? c_HTP_M_CONNECT)%Z = false /\ t_request_progress (sg_hdr_end tb) = c_HTP_REQUEST_HEADERS /\
                  t_response_progress (sg_hdr_end tb) = c_HTP_RESPONSE_NOT_STARTED /\ t_is_protocol_0_9 (sg_hdr_end tb) = false /\ t_hook_request_body (sg_hdr_end tb) = 0%nat).
@@ -329,14 +344,14 @@ Proof.
       rewrite (sg_body_add_fuse j k _ ltac:(lia)) in H'. replace (k + j)%nat with n in H' by lia.
       change (3 + f)%nat with (S (S (S f))). rewrite (sg_rq_loop_inr cb g _ _ _ E).
       destruct (sg_body_add'_frame n (sg_tb1 fl)) as (C1 & C2 & C3 & C4 & C5).
-      destruct (sg_pass_finalize_body cb g Hcb c' d _ _ _ H') as (c6 & E6 & Dn & St6 & Ln6 & Rd6 & Rh6);
+      destruct (sg_pass_finalize_body cb g Hcb c' d _ _ H') as (c6 & E6 & H6);
         [rewrite C1; exact Tc|rewrite C2; reflexivity|rewrite C3; change (t_response_progress (sg_tb1 fl)) with (t_response_progress (sg_t0 fl)); rewrite Rp; reflexivity
         |rewrite C4; exact Z9|rewrite C5; exact Hk0|].
       rewrite (sg_rq_loop_inr cb g _ _ _ E6).
-      rewrite (sg_rq_loop_inl cb g _ _ _ (sg_pass_idle_end cb g c6 _ (length d) Dn St6 Ln6 Rd6 Rh6)).
+      rewrite (sg_rq_loop_inl cb g _ _ _ (sg_pass_idle_end cb g c6 d _ _ _ _ H6)).
       eexists _, _. split; [reflexivity|]. right.
       split; [assert (L : length rw' = 0%nat) by lia; destruct rw'; [reflexivity|discriminate]|].
-      exists fl. change (c_txs (c6 <| c_in_status := c_HTP_STREAM_DATA |>)) with (c_txs c6). rewrite (dn_txs _ _ Dn).
+      exists fl. change (c_txs (c6 <| c_in_status := c_HTP_STREAM_DATA |>)) with (c_txs c6). rewrite (il_txs _ _ _ _ _ _ _ H6). cbn [w_done sg_w0 app].
       unfold sg_after_hdr. destruct n as [|n0] eqn:En; [lia|]. reflexivity.
 Qed.
 
@@ -361,8 +376,8 @@ Lemma sg_btail c c1 d rd1 (rw' : bytes) f : c_in_state c = REQ_HEADERS ->
   exists cF rc, rq_loop cb g (6 + f) false c = (cF, rc) /\ post cF rw'.
 Proof.
   intros Es Ef H1 Hw.
-  destruct (sg_th0_facts g Hspace m u pr Wl) as (_ & _ & _ & H3 & _ & (nu0 & H5)).
-  pose proof (wr_keep_h_block fs (sg_th0 g m u pr)) as K. fold tb in K. unfold wr_keep_h in K. destruct K as (_ & _ & _ & _ & _ & _ & K7 & _ & _ & K10).
+  destruct (sg_th0_facts g Hspace 0 m u pr Wl) as (_ & _ & _ & H3 & _ & (nu0 & H5)).
+  pose proof (wr_keep_h_block fs (sg_th0 g 0 m u pr)) as K. fold tb in K. unfold wr_keep_h in K. destruct K as (_ & _ & _ & _ & _ & _ & K7 & _ & _ & K10).
   assert (Pg : t_request_progress tb = c_HTP_REQUEST_HEADERS) by (rewrite K7; exact H3).
   assert (Pu : t_parsed_uri tb = Some nu0) by (rewrite K10; exact H5).
   unfold rq_with_tx in Ef. rewrite (ci_tx _ _ _ _ _ _ _ _ _ H1) in Ef.
@@ -378,12 +393,12 @@ Proof.
     assert (Eb : body = []) by (apply length_zero_iff_nil; exact En). rewrite Eb in Hw. apply app_eq_nil in Hw. destruct Hw as [Hs Hrw].
     assert (Erd : rd1 = length d) by (pose proof (sg_skipn_nil _ _ Hs); pose proof (ci_rd _ _ _ _ _ _ _ _ _ H1); lia). rewrite Erd in H5'.
     change (3 + f)%nat with (S (S (S f))).
-    destruct (sg_pass_finalize_body cb g Hcb c5 d _ _ _ H5' Tc) as (c6 & E6 & Dn & St6 & Ln6 & Rd6 & Rh6);
+    destruct (sg_pass_finalize_body cb g Hcb c5 d _ _ H5' Tc) as (c6 & E6 & H6);
       [rewrite Pg0; reflexivity|rewrite Rp; reflexivity|exact Z9|exact Hk0|].
     rewrite (sg_rq_loop_inr cb g _ _ _ E6).
-    rewrite (sg_rq_loop_inl cb g _ _ _ (sg_pass_idle_end cb g c6 _ (length d) Dn St6 Ln6 Rd6 Rh6)).
+    rewrite (sg_rq_loop_inl cb g _ _ _ (sg_pass_idle_end cb g c6 d _ _ _ _ H6)).
     eexists _, _. split; [reflexivity|]. right. split; [exact Hrw|]. exists fl.
-    change (c_txs (c6 <| c_in_status := c_HTP_STREAM_DATA |>)) with (c_txs c6). rewrite (dn_txs _ _ Dn). rewrite En. reflexivity.
+    change (c_txs (c6 <| c_in_status := c_HTP_STREAM_DATA |>)) with (c_txs c6). rewrite (il_txs _ _ _ _ _ _ _ H6). rewrite En. reflexivity.
   - destruct H5' as [H5' L5]. rewrite <- En in *.
     apply (sg_body_run c5 d rd1 fl 0 rw' f); [exact H5'|rewrite L5; f_equal; lia|lia|cbn [skipn]; exact Hw].
 Qed.
@@ -393,12 +408,12 @@ End BodyRun.
 (* the request r (its fields may include Content-Length) is well formed, is not CONNECT, and its header block announces
    an identity body of exactly |body| bytes -- as htp_tx_process_request_headers decides (the decision table of C11) *)
 Definition sg_body_ok (g : cfg) (r : wr_request) (body : bytes) : bool :=
-  let tb := wr_block_tx (wq_fields r) (sg_th0 g (wq_method r) (wq_uri r) (wq_protocol r)) in
+  let tb := wr_block_tx (wq_fields r) (sg_th0 g 0 (wq_method r) (wq_uri r) (wq_protocol r)) in
   wr_wf_request_line (wq_method r) (wq_uri r) (wq_protocol r) && wr_block_ok (wq_fields r) && negb (wr_eqb (wq_method r) wr_str_connect) &&
   (t_request_transfer_coding (sg_hdr_end tb) =? c_HTP_CODING_IDENTITY)%Z && (t_request_content_length (sg_hdr_end tb) =? Z.of_nat (length body))%Z.
 (* the transaction such a request has to produce *)
 Definition sg_tbody (g : cfg) (r : wr_request) (n : nat) : tx :=
-  sg_after_hdr n (sg_hdr_end (wr_block_tx (wq_fields r) (sg_th0 g (wq_method r) (wq_uri r) (wq_protocol r)))).
+  sg_after_hdr n (sg_hdr_end (wr_block_tx (wq_fields r) (sg_th0 g 0 (wq_method r) (wq_uri r) (wq_protocol r)))).
 
 Theorem sg_request_body_chunking : forall cb g r (cuts : list (list bytes)) (body : bytes) (chunks : list bytes),
   wr_all_ok cb -> g_allow_space_uri g = false -> sg_body_ok g r body = true -> sg_cuts_ok r cuts = true -> sg_fold_fits g r cuts = true ->
@@ -419,9 +434,9 @@ Proof.
   destruct (sg_block_flat_ok fps Okf Hfo) as (Fok & Fnp). fold flat in Fok, Fnp.
   set (bwt := sg_fwire flat ++ [CR; LF] ++ body).
   assert (Hc' : concat chunks = wr_ser_request_line m u p ++ [CR; LF] ++ bwt) by (rewrite Hc; unfold bwt; rewrite <- !app_assoc; reflexivity).
-  set (Tend := wr_block_tx fs (sg_th0 g m u p)) in *.
-  assert (Hstart : sg_fhlog g Tend body None (sg_th0 g m u p) [] bwt).
-  { exists None, (sg_th0 g m u p), flat, (sg_fnext flat). split; [left; split; reflexivity|]. split; [exact Fok|]. split; [rewrite Fnp; discriminate|].
+  set (Tend := wr_block_tx fs (sg_th0 g 0 m u p)) in *.
+  assert (Hstart : sg_fhlog g Tend body None (sg_th0 g 0 m u p) [] bwt).
+  { exists None, (sg_th0 g 0 m u p), flat, (sg_fnext flat). split; [left; split; reflexivity|]. split; [exact Fok|]. split; [rewrite Fnp; discriminate|].
     split; [unfold sg_lrun, flat; rewrite (sg_block_lrun fps _ Hfo), Efs; reflexivity|]. split; [reflexivity|]. split; [apply sg_fnext_ne|].
     split; [apply (sg_fwire_split body)|exact Hfit]. }
   destruct (sg_all_chunks cb g Hcb Hsp m u p Wl Hl0 bwt (sg_fhlog g Tend body) (sg_bfin g m u p fs body) (sg_bext g m u p fs body) Hstart
